@@ -112,6 +112,8 @@ pub enum TimeJob {
     NotifyAtSecs(u64, u32),
     /// legacy API only: clear a timer id
     Clear(u64),
+    /// start a timer and clear it in the same update (before it was ever requested)
+    SetThenClearNanos(u64),
 }
 
 #[derive(Serialize, Deserialize, Clone, Debug, PartialEq)]
@@ -668,6 +670,16 @@ fn time_command<Ef: CapEffect>(job: TimeJob) -> Command<Ef, Event> {
             })
         }
         TimeJob::Clear(_) => Command::done(),
+        TimeJob::SetThenClearNanos(n) => {
+            let (b, handle) = Time::notify_after(std::time::Duration::from_nanos(n));
+            handle.clear();
+            b.then_send(|o| {
+                Event::Got(Outcome::Time(match o {
+                    TimerOutcome::Completed(_) => TimeOut::Completed(0),
+                    TimerOutcome::Cleared => TimeOut::Cleared(0),
+                }))
+            })
+        }
     }
 }
 
@@ -705,6 +717,11 @@ fn time_legacy(job: TimeJob, caps: &d::Capabilities) {
             LAST_TIMER_ID.lock().unwrap().replace(id.0 as u64);
         }
         TimeJob::Clear(id) => caps.time.clear(TimerId(id as usize)),
+        TimeJob::SetThenClearNanos(n) => {
+            let id = caps.time.notify_after(std::time::Duration::from_nanos(n), report);
+            caps.time.clear(id);
+            LAST_TIMER_ID.lock().unwrap().replace(id.0 as u64);
+        }
     }
 }
 
